@@ -307,6 +307,7 @@ def _discharge(prop, ctx, case, kf, res):
             inside = z3.Or(*regions)
             r_in = ENGINE.check(neg, inside)
             if r_in == z3.sat:
+                res["discharged"] -= 1  # a listed finding is not a discharged obligation
                 m = ENGINE.solver.model()
                 for e, reg in zip(entries, regions):
                     if z3.is_true(m.eval(reg, model_completion=True)):
